@@ -41,7 +41,10 @@ RULE = ('array cases = (record, container, dt, trap in {True,False}, call style)
         'results it still holds. object cases = AccSignal(record, dt) (all containers above) followed by a random '
         'history of mutators (same / shorter / longer reset_values, add_*, remove_*, running/rolling average, '
         'butter_pass, baseline corrections with and without timezone, correct_me, clear_cache, explicit '
-        'generate(trap) by keyword / positionally / default) interleaved with reads of velocity / displacement / '
+        'generate(trap) by keyword / positionally / default) and response-spectrum generation steps (lazy s_a / s_d '
+        'reads after setting response_times, gen_response_spectrum / generate_response_spectrum with first period '
+        'in {0, 1.2, 2, 4, 5.9, 6, 10}*dt and min_dt_ratio default / 1 / 8, placed on the fresh object, before and '
+        'between the peak reads and after mutators) interleaved with reads of velocity / displacement / '
         'pga / pgv / pgd in random order with repeats and with "feed" steps that pass the arrays handed out by the '
         'properties back into the array functions; every read is judged against the values the object holds at that '
         'moment (velocity by increments on values; displacement and PGV/PGD also against the oracle\'s own '
@@ -56,8 +59,9 @@ ASSUMPTIONS = ['finite real 1-D record of length >= 2, dt > 0 (dt = 0, negative 
                'integer records of any width and magnitude are in domain; the oracle works on their float64 image '
                '(exact below 2**53, correctly rounded above)',
                'float16 and bool records are outside the quantifier (probed only)',
-               'tolerances are multiples of the machine epsilon of the coarsest floating dtype among the INPUTS '
-               '(record, dt): a float32 record is integrated in float32 by the '
+               'tolerances are multiples of the machine epsilon of the RECORD dtype (float64 for float64 and integer '
+               'records whatever the type of dt - a numpy.float32 dt is used with its exact value float(dt)): only a '
+               'float32 record is integrated in float32 by the '
                'library, so the identity can only hold to float32 rounding; float32 records are generated with '
                'dt^2*peak inside the float32 normal range',
                'the statement has no numeric option besides dt and no thresholds/constants: "boundary values" reduce '
@@ -281,7 +285,9 @@ def check_array(ctx, fn, acc, dt, trap, result, orig=None):
     if not ctx.check(shapes == ((n,), (n,)), 'array.length', wit,
                      '%s: returned shapes %s, expected two series of length %d' % (label, shapes, n)):
         return
-    eps = O.eps_of(a, dt)      # precision the INPUT allows; a float64 record must be integrated to float64 accuracy
+    # precision the RECORD allows: a float64 / integer record must be integrated to float64 accuracy whatever the type
+    # of dt (array * numpy.float32 scalar is float64 arithmetic with the value float(dt)); only float32 records get eps32
+    eps = O.eps_of(a)
     vf = O.f64(v)
     df = O.f64(d)
     if not ctx.check(bool(np.all(np.isfinite(vf)) and np.all(np.isfinite(df))), 'array.finite', wit,
@@ -390,11 +396,11 @@ def check_obj_series(ctx, obj, name, result):
     ctx.check(rf[0] == 0, 'obj.start==0', wit, '%s: starts at %r' % (label, rf[0]))
     rules = ['trap'] if mode else ['left', 'right']
     if name == 'velocity':
-        _check_inc(ctx, 'obj.velocity.increments', rf, vals, dt, rules, O.eps_of(vals, dt), wit, label)
+        _check_inc(ctx, 'obj.velocity.increments', rf, vals, dt, rules, O.eps_of(vals), wit, label)
     else:
         with attach.paused():
             v = obj.velocity
-        _check_inc(ctx, 'obj.displacement.increments', rf, O.f64(v), dt, rules, O.eps_of(vals, dt), wit, label)
+        _check_inc(ctx, 'obj.displacement.increments', rf, O.f64(v), dt, rules, O.eps_of(vals), wit, label)
         # ... and against the record the object holds NOW, without going through the object's cached velocity
         err, tol, rv, rd = _vs_current_values(vals, dt, mode, 'd-series', rf)
         ctx.check(err <= tol, 'obj.displacement==integral(current values)', wit,
@@ -406,7 +412,7 @@ def _vs_current_values(vals, dt, mode, which, got):
     """Compare a series / peak with what the oracle integrates from the record alone; the closest admissible rule
     combination counts. Returns (err, tol, velocity rule, displacement rule)."""
     n = len(vals)
-    eps = O.eps_of(vals, dt)
+    eps = O.eps_of(vals)
     amax = O.max_abs(vals)
     best = None
     for rv, rd, v, d in O.reference_pairs(vals, dt, bool(mode)):
@@ -727,6 +733,17 @@ def _reads(rng, full=False):
     return r
 
 
+RS_FIRST = [0.0, 1.2, 2.0, 4.0, 5.9, 6.0, 10.0]
+
+
+def _rs(rng):
+    """Response-spectrum generation step: lazy read of s_a / s_d after setting response_times, or an explicit
+    gen(erate)_response_spectrum call; first period given as a multiple of dt (0 = the PGA row)."""
+    first = RS_FIRST[int(rng.integers(len(RS_FIRST)))]
+    return ['rs', ['lazy_s_a', 'lazy_s_d', 'gen', 'gen', 'generate'][int(rng.integers(5))], first,
+            [None, None, 1, 8][int(rng.integers(4))], int(rng.integers(2, 5))]
+
+
 def _feed(rng):
     """Hand one of the object's own arrays (values / cached velocity / cached displacement) to the array functions."""
     return ['feed', ['values', 'velocity', 'displacement'][int(rng.integers(3))], bool(rng.random() < 0.6),
@@ -740,8 +757,14 @@ def make_object_scenario(rng, nmax=1500, n=None):
     dt = pick_dt(rng)
     base, cont, _ = to_container(rng, x, kind, None, dt)
     ops = []
-    if rng.random() < 0.85:
+    rs_ok = n <= 2500
+    if rs_ok and rng.random() < 0.4:
+        ops.append(_rs(rng))            # spectrum generated on the fresh object, before any peak is read
+    if rng.random() < 0.85 or ops:
         ops.append(['read', _reads(rng)])
+        if rs_ok and rng.random() < 0.25:
+            ops.append(_rs(rng))
+            ops.append(['read', _reads(rng)])
         if rng.random() < 0.4:
             ops.append(_feed(rng))
             ops.append(['read', _reads(rng)])
@@ -750,6 +773,7 @@ def make_object_scenario(rng, nmax=1500, n=None):
         m = MUTATORS[int(rng.integers(len(MUTATORS)))]
         if m == 'reset_values':
             n = pick_n(rng, nmax)
+            rs_ok = n <= 2500
             y, _, _ = pick_record(rng, n)
             b, c, _ = to_container(rng, y, OBJ_CONTAINERS[int(rng.integers(len(OBJ_CONTAINERS)))], None, dt)
             op = [m, b, c]
@@ -781,7 +805,12 @@ def make_object_scenario(rng, nmax=1500, n=None):
         else:
             op = [m]
         ops.append(op)
+        if rs_ok and rng.random() < 0.35:
+            ops.append(_rs(rng))        # between the mutator and the first peak read that follows it
         ops.append(['read', _reads(rng, full=rng.random() < 0.6)])
+        if rs_ok and rng.random() < 0.15:
+            ops.append(_rs(rng))
+            ops.append(['read', _reads(rng)])
         if rng.random() < 0.3:
             ops.append(_feed(rng))
             ops.append(['read', _reads(rng)])
@@ -898,7 +927,7 @@ def _array_case(eqsig, ctx, case, held):
         a0, k = float(lin[0]), float(lin[1])
         s = k / float(dt)
         v, d = res[True]
-        eps = O.eps_of(base, dt)
+        eps = O.eps_of(base)
         rv, rd = O.closed_form_linear(a0, s, dt, n)
         sv, sd = O.closed_form_scales(a0, s, dt, n)
         clause = 'array.exact.const' if k == 0 else 'array.exact.linear'
@@ -915,7 +944,7 @@ def _array_case(eqsig, ctx, case, held):
     d = O.f64(res[trap][1])
     if not (np.all(np.isfinite(v)) and np.all(np.isfinite(d))):
         return
-    epsx = O.eps_of(base, dt)
+    epsx = O.eps_of(base)
     Vx, Dx = O.max_abs(v), O.max_abs(d)
     p_v = _peak(ctx, eqsig, res[trap][0], case)
     p_d = _peak(ctx, eqsig, res[trap][1], case)
@@ -1071,6 +1100,24 @@ def run_object_scenario(eqsig, ctx, scen):
                             ctx.exception('obj.no-exception', dict(scen, failed_at='op %d read %s' % (k, nm)), e)
                 elif op[0] == 'agree':
                     _agree(eqsig, ctx, a, scen, k)
+                elif op[0] == 'rs':
+                    # not judged itself (C03/C04 territory); it must not disturb what the peak reads return
+                    try:
+                        dtf = float(a.dt)
+                        first = float(op[2]) * dtf
+                        nz = first if first > 0 else 2.0 * dtf
+                        rt = np.array([first] + [nz * (2.5 + 3.0 * j) for j in range(int(op[4]))])
+                        kw = {} if op[3] is None else {'min_dt_ratio': op[3]}
+                        if op[1].startswith('lazy'):
+                            a.response_times = rt
+                            getattr(a, op[1][5:])
+                        elif op[1] == 'gen':
+                            a.gen_response_spectrum(response_times=rt, **kw)
+                        else:
+                            a.generate_response_spectrum(rt, -1, *([op[3]] if op[3] is not None else []))
+                        ctx.observe('response-spectrum-step')
+                    except Exception as e:
+                        ctx.observe('response-spectrum-exception:%s' % type(e).__name__)
                 elif op[0] == 'feed':
                     # the array the property hands out goes straight into the array functions (monitored: result,
                     # purity of the argument); the reads that follow re-judge the object against its values
@@ -1238,7 +1285,7 @@ def _agree(eqsig, ctx, a, scen, k):
         ctx.violation('obj==array', dict(scen, failed_at='op %d agree' % k), 'shapes differ: %s %s %s %s'
                       % (np.shape(vo), np.shape(do), np.shape(va), np.shape(da)))
         return
-    eps = O.eps_of(np.asarray(a.values), a.dt)
+    eps = O.eps_of(np.asarray(a.values))
     tv, td = _rel_tols(eps, n, a.dt, 2 * O.max_abs(va), 2 * O.max_abs(a.values), 2 * O.max_abs(da))
     ev = float(np.max(np.abs(O.f64(vo) - O.f64(va))))
     ed = float(np.max(np.abs(O.f64(do) - O.f64(da))))
@@ -1314,6 +1361,13 @@ def _fixed_cases():
                 'ops': [['read', ['pgv', 'pgd']], ['generate', False], ['read', ['velocity', 'pgv', 'pgd', 'pga']],
                         ['agree'], ['generate', True], ['read', ['pgd', 'pgv', 'displacement']], ['agree']]})
     t = np.arange(80, dtype=float)
+    for first, how, ratio in ((2.0, 'gen', None), (4.0, 'lazy_s_a', None), (5.9, 'generate', 8), (1.2, 'gen', 1),
+                              (0.0, 'lazy_s_d', None)):
+        out.append({'kind': 'object', 'acc': 0.5 * np.sin(t / 2.0) * np.exp(-((t - 40) / 20.0) ** 2),
+                    'container': 'array', 'ckind': 'fixed-rs', 'cls': 'fixed', 'dt': 0.01, 'dt_kind': 'float',
+                    'ops': [['rs', how, first, ratio, 3], ['read', ['pga', 'pgv', 'pgd']], ['agree'],
+                            ['add_constant', 0.25], ['rs', how, first, ratio, 2], ['read', ['pgd', 'pga', 'pgv']],
+                            ['agree']]})
     out.append({'kind': 'twin', 'acc': np.sin(t / 5.0) + 0.25, 'container': 'array', 'ckind': 'fixed', 'cls': 'fixed',
                 'dt': 0.01, 'dt_kind': 'float', 'link': 'same-caller-array', 'other': np.cos(t / 3.0),
                 'ops': [['rebase_displacement']], 'reads0': list(READS), 'reads1': list(READS[::-1])})
@@ -1362,7 +1416,7 @@ def run_shard(ctx):
         if ctx.shard % 3 == 2 and j == 0:
             scen = make_object_scenario(rng, nmax=1500, n=nl)
             scen['ops'] = [o for o in scen['ops'] if o[0] not in ('running_average', 'remove_rolling_average',
-                                                                  'correct_me')][:9]
+                                                                  'correct_me', 'rs')][:9]
             _register(ctx, scen)
             run_object_scenario(eqsig, ctx, scen)
         else:
